@@ -1033,9 +1033,23 @@ class Variable(CanBehaveLikeAVariable[T]):
     def _generate_combinations_for_child_vars_values_(
         self, sources: Optional[Dict[int, HashedValue]] = None
     ):
-        yield from generate_combinations(
-            {k: var._evaluate__(sources) for k, var in self._child_vars_.items()}
-        )
+        child_vars = list(self._child_vars_.items())
+
+        def combinations(
+            position: int, bindings: Optional[Dict[int, HashedValue]], chosen: Dict
+        ) -> Iterable[Dict[str, OperationResult]]:
+            # lazy nested loops (leftmost varies slowest); every argument is evaluated under the bindings the ones
+            # before it produced, so that all of them speak about the same assignment
+            if position == len(child_vars):
+                yield chosen
+                return
+            name, var = child_vars[position]
+            for result in var._evaluate__(bindings):
+                yield from combinations(
+                    position + 1, result.bindings, {**chosen, name: result}
+                )
+
+        yield from combinations(0, sources, {})
 
     def _process_output_and_update_values_(
         self, instance: Any, kwargs: Dict[str, OperationResult]
